@@ -245,6 +245,14 @@ func (b *builder) unit(depth int) gram.Ref {
 		k1, k2, k3 := b.tok(), b.tok(), b.tok()
 		forms := []gram.Term{TL(x, s1, false), TL(x, s2, false), TL(x, s1, true), TS(x, gram.Plus), TS(x, gram.Star), TS(x, gram.Opt), TL(x, s2, true)}
 		p := r.Perm(len(forms))
+		switch r.Intn(4) {
+		case 0:
+			// both optional lists: same element, same kind of helper, only the
+			// separator tells them apart
+			return b.rule(P(T(k1), forms[2]), P(T(k2), forms[6]), P(T(k3), forms[p[2]]))
+		case 1:
+			return b.rule(P(T(k1), forms[0]), P(T(k2), forms[1]), P(T(k3), forms[p[2]]))
+		}
 		return b.rule(P(T(k1), forms[p[0]]), P(T(k2), forms[p[1]]), P(T(k3), forms[p[2]]))
 	case 12, 13:
 		// nullable chain: nullability has to travel several steps, against
@@ -465,6 +473,75 @@ func AddErrors(r *rng.R, g *gram.Grammar) {
 			}
 		}
 		g.Rules[ri].Prods = append(g.Rules[ri].Prods, p)
+	}
+}
+
+// ErrorSugarRecoveryGrammar: @error?, @error* or @error+ at a place where a
+// recovery has to pop a value of such a term off the stack: the zero Error of
+// an empty '@error?' (no error at all), or the slice of '@error+' holding an
+// Error that has not reached a user action yet.
+func ErrorSugarRecoveryGrammar(r *rng.R) *gram.Grammar {
+	g := &gram.Grammar{}
+	for i := 0; i < 6; i++ {
+		g.Tokens = append(g.Tokens, gram.Token{Name: tokNames[i], Lit: string(rune('a' + i))})
+	}
+	perm := r.Perm(6)
+	tk := func(i int) gram.Term { return gram.Term{Ref: gram.Ref{Kind: gram.KTok, Idx: perm[i]}} }
+	rl := func(i int, s gram.Sugar) gram.Term { return gram.Term{Ref: gram.Ref{Kind: gram.KRule, Idx: i}, Sugar: s} }
+	es := func(s gram.Sugar) gram.Term { return gram.Term{Ref: gram.Ref{Kind: gram.KErr}, Sugar: s} }
+	sg := []gram.Sugar{gram.Opt, gram.Star, gram.Plus}[r.Intn(3)]
+	switch r.Intn(4) {
+	case 0:
+		// a list of items that begin with the error term
+		item := gram.Rule{Name: "item", Prods: []gram.Prod{P(es(sg), tk(0), tk(1), tk(2))}}
+		if r.Chance(1, 2) {
+			item.Prods = append(item.Prods, P(tk(3)))
+		}
+		g.Rules = []gram.Rule{{Name: "s", Prods: []gram.Prod{P(rl(1, []gram.Sugar{gram.Star, gram.Plus}[r.Intn(2)]))}}, item}
+	case 1:
+		// the error term between two tokens, the error comes after the second
+		p := P(tk(0), es(sg), tk(1))
+		if r.Chance(1, 2) {
+			p.Terms = append(p.Terms, tk(2))
+		}
+		g.Rules = []gram.Rule{{Name: "s", Prods: []gram.Prod{p}}}
+		if r.Chance(1, 2) {
+			g.Rules[0].Prods = append(g.Rules[0].Prods, P(tk(3), tk(3)))
+		}
+	case 2:
+		// the same token before and after, next to other alternatives
+		g.Rules = []gram.Rule{
+			{Name: "s", Prods: []gram.Prod{P(tk(0), es(sg), tk(0)), P(tk(1), rl(1, gram.Plus), tk(2)), P(es(gram.None))}},
+			{Name: "elem", Prods: []gram.Prod{P(tk(3)), P(es(gram.None)), P(tk(1), rl(1, gram.None), tk(2))}},
+		}
+	default:
+		// the error term in an inner rule, more tokens behind it in the outer one
+		g.Rules = []gram.Rule{
+			{Name: "s", Prods: []gram.Prod{P(rl(1, gram.Plus))}},
+			{Name: "stmt", Prods: []gram.Prod{P(rl(2, gram.None), tk(0), tk(1)), P(tk(2), tk(1))}},
+			{Name: "head", Prods: []gram.Prod{P(tk(3), es(sg)), P(tk(4))}},
+		}
+	}
+	return g
+}
+
+// AddErrorsUnderSugar is AddErrors with the @error term written @error?,
+// @error* or @error+ half of the time ("any placement of @error terms").
+func AddErrorsUnderSugar(r *rng.R, g *gram.Grammar) {
+	before := make([]int, len(g.Rules))
+	for i := range g.Rules {
+		before[i] = len(g.Rules[i].Prods)
+	}
+	AddErrors(r, g)
+	for ri := range g.Rules {
+		for pi := before[ri]; pi < len(g.Rules[ri].Prods); pi++ {
+			for ti := range g.Rules[ri].Prods[pi].Terms {
+				t := &g.Rules[ri].Prods[pi].Terms[ti]
+				if t.Ref.Kind == gram.KErr && t.Sugar == gram.None && r.Chance(1, 2) {
+					t.Sugar = []gram.Sugar{gram.Opt, gram.Star, gram.Plus}[r.Intn(3)]
+				}
+			}
+		}
 	}
 }
 
